@@ -149,6 +149,8 @@ def layout_ops(rng, cfg, nassign, full_rows=True):
         for i in (range(n) if n <= 64 else idxs):
             ops.append("range %d" % i)
         ops.append("fold")
+        ops.append("foldcells %d" % rng.randrange(1000))
+        ops.append("pushcells %d" % rng.randrange(1000))
         if a == 0 and n > 0:
             ops.append("row %d" % rng.randrange(n))       # originals are untouched by create_copies
     return ops
@@ -272,8 +274,9 @@ def run(ctx):
         "the chained model (one loop pass per chain step, hand-over as in PhotonTraversalTaskContext) is validated on real subgrids by the "
         "split-vs-unsplit tracing stream (rel 1e-10)",
         "theorems are about exact integer/field arithmetic; round-off of positions at a hand-over is only measured (trace stream)",
-        "fold_once / copies_wiring assume the total number of subgrids stays below 0xffffffff (the sentinel of _copies) and "
-        "_copies entries left behind by update_copies are >= the number of originals (they are old vector sizes)",
+        "fold_once / fold_cells / push_cells assume the total number of subgrids stays below 0xffffffff (the sentinel of _copies); that "
+        "_copies entries left behind by update_copies are >= the number of originals is proved for every history (fold_once_history); "
+        "copy levels are natural numbers with 2^level copies (the C++ `1 << level` on int is only defined for level <= 30)",
         "the compatibility functions depend on the direction only through the signs of its components (the generator checks "
         "three magnitudes per sign and fails otherwise)",
         "update_original_counters runs its outer loop in parallel; the model lists the visits in the order of one thread "
@@ -437,8 +440,7 @@ MANIFEST = dict(
          "tables, _copies/_originals, get_copies ranges and fold visits on real DensitySubGridCreator<DensitySubGrid> objects (all "
          "layouts <= 4x4x4 x 8 periodicities in thorough mode, random larger ones, copy levels 0..3); C02's model of interact (tied by C02's "
          "check; Props/C03 proves by decide that C02's and C03's generated tables agree).  NOT proved: termination itself (a periodic box of zero "
-         "opacity never ends), the converse termination transfer (undivided over => split over); copies are not part of the march theorem (their wiring/fold "
-         "theorems + the tracing stream with copies cover them); floating-point round-off (validated: seeded packets through real split "
+         "opacity never ends), the converse termination transfer (undivided over => split over); the buffer bookkeeping of PhotonTraversalTaskContext/MemorySpace is not in the Lean model (driven for real in the tracing stream); floating-point round-off (validated: seeded packets through real split "
          "grids with copies — traversed by the real PhotonTraversalTaskContext/MemorySpace/TaskQueue/PrematureLaunch code with buffer "
          "overflows and recycled slots, over a two-step history with update_copy_properties in between — vs a single block, per-cell "
          "estimators rel 1e-10, same absorption/escape decisions, no packet lost, no buffer left behind); load-balancing statistics.",
